@@ -15,6 +15,14 @@ MUTANTS = [
  ("coldef_take_drops_table", "C15", "src/table/column.rs", "table: self.table.take(),\n            name: std::mem::replace", "table: None,\n            name: std::mem::replace"),
  ("win_take_keeps_frame_only", "C15", "src/query/window.rs", "order_by: std::mem::take(&mut self.order_by),", "order_by: Vec::new(),"),
  ("ic_take_loses_include", "C15", "src/index/create.rs", "include_columns: self.include_columns.clone(),", "include_columns: vec![],"),
+ ("ts_rc_instead_of_arc", "C20", "src/types.rs", "#[cfg(feature = \"thread-safe\")]\npub type RcOrArc<T> = std::sync::Arc<T>;", "#[cfg(feature = \"thread-safe\")]\npub type RcOrArc<T> = std::rc::Rc<T>;"),
+ ("ts_iden_without_send_sync", "C20", "src/types.rs", "#[cfg(feature = \"thread-safe\")]\niden_trait!(Send, Sync);", "#[cfg(feature = \"thread-safe\")]\niden_trait!();"),
+ ("ts_array_rc", "C20", "src/table/column.rs", "    Array(RcOrArc<ColumnType>),", "    Array(std::rc::Rc<ColumnType>),"),
+ ("ts_searc_rc_unsafe_impl", "C20", "src/types.rs", [
+    ("pub struct SeaRc<I>(pub(crate) RcOrArc<I>)\nwhere\n    I: ?Sized;", "pub struct SeaRc<I>(pub(crate) std::rc::Rc<I>)\nwhere\n    I: ?Sized;\nunsafe impl<I: ?Sized> Send for SeaRc<I> {}\nunsafe impl<I: ?Sized> Sync for SeaRc<I> {}"),
+    ("SeaRc(RcOrArc::clone(&self.0))", "SeaRc(std::rc::Rc::clone(&self.0))"),
+    ("SeaRc(RcOrArc::new(i))", "SeaRc(std::rc::Rc::new(i))")], None),
+ ("ts_global_placeholder_counter", "C20", "src/prepare.rs", "    fn push_param(&mut self, value: Value, _: &dyn QueryBuilder) {\n        self.counter += 1;", "    fn push_param(&mut self, value: Value, _: &dyn QueryBuilder) {\n        static COUNTER: std::sync::atomic::AtomicUsize = std::sync::atomic::AtomicUsize::new(0);\n        if self.counter == 0 { COUNTER.store(0, std::sync::atomic::Ordering::SeqCst); }\n        self.counter = COUNTER.fetch_add(1, std::sync::atomic::Ordering::SeqCst) + 1;"),
  ("values_lt_check", "C10", "src/query/insert.rs", "if self.columns.len() != values.len() {", "if self.columns.len() < values.len() {"),
  ("values_push_before_check", "C10", "src/query/insert.rs", "let values = values.into_iter().collect::<Vec<SimpleExpr>>();\n        if self.columns.len() != values.len() {", "let values = values.into_iter().collect::<Vec<SimpleExpr>>();\n        if !values.is_empty() && self.columns.len() > values.len() { if let Some(InsertValueSource::Values(v)) = &mut self.source { v.push(values.clone()); } }\n        if self.columns.len() != values.len() {"),
  ("select_from_unchecked_zero", "C10", "src/query/insert.rs", "if self.columns.len() != statement.selects.len() {", "if self.columns.len() != statement.selects.len() && !statement.selects.is_empty() {"),
@@ -33,14 +41,17 @@ def main():
         if want and name not in want: continue
         p = os.path.join("/repo", f)
         src = open(p).read()
-        if old not in src:
+        edits = old if isinstance(old, list) else [(old, new)]
+        if any(o not in src for o, _ in edits):
             res.append((name, prop, "PATTERN-NOT-FOUND", 0)); continue
-        open(p, "w").write(src.replace(old, new, 1))
+        for o, n in edits:
+            src = src.replace(o, n, 1)
+        open(p, "w").write(src)
         t = time.time()
         try:
             r = sh(f"cd /verif && ./check {prop} quick")
             line = [l for l in r.stdout.splitlines() if l.startswith("VIOLATION")]
-            why = [l for l in r.stdout.splitlines() if l.startswith("violation in run")]
+            why = [l for l in r.stdout.splitlines() if l.startswith("violation in") or l.startswith("obligation ") or l.startswith("Miri:") or l.startswith("the thread harness")]
             res.append((name, prop, f"exit={r.returncode} {line[0] if line else ''} {why[0][:160] if why else r.stderr[-300:]}", time.time()-t))
         finally:
             sh("git -C /repo checkout -- .")
